@@ -929,6 +929,10 @@ def main(argv):
         except Unrecognised as e:
             print("gen_tables: aggregation / closure / map families, shape not recognised: %s" % (e,)); return 2
         text = render(consts, arms, guards, units, rules, dflt, roll, agg)
+        import gen_tables_drv          # the rolling drivers (tools/gen_tables_drv.py; conformance: coq/Proofs/SrcTablesDrv.v)
+        try: text += "\n".join(gen_tables_drv.section(repo, Unrecognised))
+        except Unrecognised as e:
+            print("gen_tables: rolling drivers, shape not recognised: %s" % (e,)); return 2
     except Unrecognised as e:
         print("gen_tables: rolling family, shape not recognised: %s" % (e,)); return 2
     except (OSError, ValueError, KeyError) as e:
